@@ -87,6 +87,31 @@ def run(tier="quick", replay=None, merge=True):
                     viol.append({"kind": "property", "replay": rp, "what": name + ": " + msg, "schedule": ex.choices})
         cov.update({"traces_validated_against_impl": nexec, "evaluations": nexec,
                     "rule": "one case = one complete schedule of the race on the instrumented real handlers; every lock acquisition of the racing requests is a scheduling point"})
+    # real threads: a check-then-act whose window is not a lock acquisition (two atomic operations, say) is invisible to
+    # the exploration above; 16 goroutines hammer the exported allocation API (harness/c10s), three runs
+    if ok and not replay:
+        with C.Lock("build"):
+            sok, slog, sbin = C.build_harness("c10s")
+        if not sok:
+            cov["tie_broken"].append("harness/c10s no longer fits the exported allocation API of package models: " + slog[-300:])
+            if not viol:
+                rp = C.write_replay(PID, "replay-c10stress-build.json", {"property": PID, "level": "stress", "unchecked": "harness build", "failed": [slog[-600:]]})
+                viol.append({"kind": "tie", "replay": rp, "what": "c10s build"})
+        else:
+            runs = []
+            for i in range(3 if tier == "quick" else 20):
+                rc_, out = C.sh([sbin], timeout=300)
+                try:
+                    r = json.loads([l for l in out.splitlines() if l.startswith("{")][-1])
+                except Exception:
+                    print("INTERNAL: harness/c10s failed: " + out[-800:]); return 2
+                runs.append(r)
+                if not r.get("ok") and not any(v["kind"] == "property" for v in viol):
+                    rp = C.write_replay(PID, "replay-c10stress.json", {"property": PID, "level": "stress", "script": "c10s", "observed": r,
+                                                                      "replay": "bin/check C10 (the stress is probabilistic: the check repeats it)"})
+                    viol.insert(0, {"kind": "property", "replay": rp, "what": "; ".join(r.get("failed", []))})
+            cov["real_thread_stress"] = {"runs": len(runs), "failing_runs": sum(1 for r in runs if not r.get("ok")),
+                                         "allocations_per_run": runs[0]["workers"] * runs[0]["per_worker"] * 3 // 2 if runs else 0}
     rc = 0
     for v in viol:
         C.violation(PID, v["replay"], no_input=(v["kind"] != "property")); rc = 1
